@@ -893,3 +893,35 @@ class Interp:
 
     def iterate(self, v: V) -> Iterator[V]:
         return self.bm.iterate(v)
+
+
+# ---------------------------------------------------------------------------
+# opaque converters: a registered converter is any callable; its answer for
+# (amount, from_unit, to_unit) is an uninterpreted outcome (A1: converters are
+# pure -- they do not change the state the properties speak about)
+CONV_KIND = z3.Function("conv_outcome_kind", Obj, z3.RealSort(), Obj, Obj,
+                        z3.IntSort())      # 0 None, 1 value, 2 raises
+CONV_VAL = z3.Function("conv_outcome_value", Obj, z3.RealSort(), Obj, Obj,
+                       z3.RealSort())
+
+
+def _opaque_converter(self, conv, args):
+    if len(args) != 2 or not all(isinstance(a, VObj) for a in args):
+        raise Unsupported("converter call shape")
+    qty, unit = args
+    self.path.ledger.add("A1: registered converters are pure functions of "
+                         "(amount, unit, target unit)")
+    a = self.heap.get("Qty._amount", qty.t)
+    u = self.heap.get("Qty._unit", qty.t)
+    kind = CONV_KIND(conv.t, a, u, unit.t)
+    if self.path.branch(kind == 0):
+        return NONE
+    if self.path.branch(kind == 1):
+        t = self.path.fresh("tag", z3.IntSort())
+        self.path.assume(z3.Or(t == T_DEC, t == T_FRAC))
+        return VRat(CONV_VAL(conv.t, a, u, unit.t), t)
+    self.raise_("ConverterRaised")
+
+
+Interp.opaque_converter = _opaque_converter
+EXC_BASES["ConverterRaised"] = "Exception"
